@@ -108,6 +108,11 @@ func c14Scens(variant int, quick bool) []*fatScen {
 		c.Reproducible = true
 		ss := fatScenarios(c, "digest", depth, quick)
 		out = append(out, ss...)
+		if c.Size <= 1<<20 {
+			// fill / empty / refill: how much fits - which call is the first to be refused - must not depend on where the
+			// volume sits on the device
+			out = append(out, fatFillScenario(c, "digest", depth))
+		}
 	}
 	// names are kept independent of the start offset so that the variants can be matched
 	for _, s := range out {
